@@ -46,7 +46,7 @@ def simple_shape(fn):
         p = getattr(r, "_parent", None)
         while p is not None and p is not fn:
             if not isinstance(p, ast.If):
-                return None
+                return wrapped_shape(fn, body, rets)
             p = getattr(p, "_parent", None)
     valued = any(r.value is not None for r in rets)
     res = "_ret_%s" % fn.name.strip("_")
@@ -95,6 +95,55 @@ def simple_shape(fn):
             # falling off the end returns None
             nb = [ast.Assign(targets=[ast.Name(id=res, ctx=ast.Store())], value=ast.Constant(value=None), lineno=fn.lineno,
                              col_offset=0)] + nb
+        nb.append(ast.Return(value=ast.Name(id=res, ctx=ast.Load()), lineno=fn.lineno, col_offset=0))
+    for st in nb:
+        ast.fix_missing_locations(st)
+        for n in ast.walk(st):
+            if not hasattr(n, "_module") and hasattr(fn, "_module"):
+                n._module = fn._module
+    return nb
+
+
+_block_counter = [0]
+
+
+def wrapped_shape(fn, body, rets):
+    """helpers whose returns sit inside try/with (but not inside one of their own loops): the body becomes an InlineBlock
+    in which every `return v` is `<res> = v; InlineExit`"""
+    for r in rets:
+        p = getattr(r, "_parent", None)
+        while p is not None and p is not fn:
+            if isinstance(p, (ast.For, ast.While, ast.AsyncFor)):
+                return None
+            p = getattr(p, "_parent", None)
+    valued = any(r.value is not None for r in rets)
+    res = "_ret_%s" % fn.name.strip("_")
+    _block_counter[0] += 1
+    bid = _block_counter[0]
+
+    class Rw(ast.NodeTransformer):
+        def visit_Return(self, node):
+            out = []
+            if valued:
+                val = node.value if node.value is not None else ast.Constant(value=None)
+                out.append(ast.copy_location(ast.Assign(targets=[ast.Name(id=res, ctx=ast.Store())], value=val), node))
+            ex = ast.copy_location(A.InlineExit(), node)
+            ex.block_id = bid
+            out.append(ex)
+            return out
+    blk = A.InlineBlock(body=[Rw().visit(A.clone(x)) for x in body])
+    flat = []
+    for x in blk.body:
+        flat.extend(x if isinstance(x, list) else [x])
+    blk.body = flat
+    blk.block_id = bid
+    ast.copy_location(blk, fn)
+    nb = []
+    if valued:
+        nb.append(ast.Assign(targets=[ast.Name(id=res, ctx=ast.Store())], value=ast.Constant(value=None), lineno=fn.lineno,
+                             col_offset=0))
+    nb.append(blk)
+    if valued:
         nb.append(ast.Return(value=ast.Name(id=res, ctx=ast.Load()), lineno=fn.lineno, col_offset=0))
     for st in nb:
         ast.fix_missing_locations(st)
